@@ -112,7 +112,7 @@ def evaluate(res):
     return corr, orc
 
 
-def float_family(rep, tier, seed):
+def float_family(rep, tier, seed, replay=None):
     """arbitrary boxes and positions (incl. faces and corners of the box, 1-ulp neighbours of cell faces, coincident
     particles) through the float path, counting kernel: every particle must end with N-1 (3^D N - 1 when periodic)"""
     import ftree
@@ -121,9 +121,12 @@ def float_family(rep, tier, seed):
     if not cfgs:
         return
     cases = []
-    for k in range(120 if tier == "quick" else 1500):
-        r = gen.rng(seed, "C01f", k)
-        cases.append(ftree.make_case("c01f-%d" % k, cfgs[k % len(cfgs)], r, tier, False, False))
+    if replay:
+        cases = [ftree.parse_replay(replay)]
+    else:
+        for k in range(120 if tier == "quick" else 1500):
+            r = gen.rng(seed, "C01f", k)
+            cases.append(ftree.make_case("c01f-%d" % k, cfgs[k % len(cfgs)], r, tier, False, False))
     for res in ftree.run_cases(cases, binaries):
         c = res.case
         text = "# cfg=%r\n" % (c["cfg"],) + "\n".join(c["lines"]) + "\n"
@@ -149,6 +152,9 @@ def float_family(rep, tier, seed):
 
 
 def run(rep, tier, seed, replay, proof_ok, proof_msg):
+    if replay and any(ln.startswith("ftree ") for ln in open(replay)):
+        float_family(rep, tier, seed, replay)
+        return
     corefam.standard_run(rep, tier, seed, replay, proof_ok, proof_msg, gen_cases, evaluate)
     if not replay:
         float_family(rep, tier, seed)
